@@ -91,6 +91,7 @@ Section Eqns.
     | SName k => Ok (lbracket :: tk1 TSQ (canonical_body k) ++ [rbracket])
     | SWild => Ok (lbracket :: tk1 TWild [42%N] ++ [rbracket])
     | SKeys => Ok (lbracket :: tk1 TKeys (e_keys E) ++ [rbracket])
+    | SSlice _ _ _ => x <- sel_toks s ;; Ok (lbracket :: x ++ [rbracket])
     | _ => sel_toks s
     end.
   Proof. destruct s; reflexivity. Qed.
